@@ -141,6 +141,20 @@ const HAND: &[Hand] = &[
     (false, r"^ a \s b $", "mx", &["a b", "a b\na\tb", "ab"], &["*"]),
     (false, r"straße", "i", &["STRASSE", "Straße", "strasse"], &["S"]),
     (false, r"[k-m]+", "i", &["KLM", "klm", "\u{212A}lm", "xyz"], &["K"]),
+    // --- special casing under i (case-folding tables; characters whose case class is irregular)
+    (false, r"[İ]", "i", &["i", "I", "İ", "ı", "xiX"], &["<$0>"]),
+    (false, r"[^İ]+", "i", &["ii", "İi", "aİb", "I"], &["_"]),
+    (false, r"[ı]+", "i", &["i", "I", "ı", "İ"], &["_"]),
+    (false, r"[ß]+", "i", &["ss", "ß", "ẞ", "S"], &["_"]),
+    (false, r"[ſ]+", "i", &["s", "S", "ſ", "ſs"], &["_"]),
+    (false, "[\u{212A}]", "i", &["k", "K", "\u{212A}"], &["_"]),
+    (false, r"[ǅ]", "i", &["ǆ", "Ǆ", "ǅ"], &["_"]),
+    (false, r"[σ]+", "i", &["ς", "Σ", "σ", "ΣΑΣ"], &["_"]),
+    (false, "[\u{2126}]", "i", &["ω", "Ω", "\u{2126}"], &["_"]),
+    (false, r"[a-z]+", "i", &["İstanbul", "ISTANBUL", "ıi", "Straße"], &["<$0>"]),
+    (false, r"[A-Z]+", "i", &["istanbul", "ıi", "ǆ"], &["<$0>"]),
+    (true, r"[Ā-ſ-[İ]]+", "i", &["i", "İ", "ĀāIi"], &["_"]),
+    (false, r"İ", "i", &["i", "I", "İ", "i̇"], &["_"]),
     // --- XSD dialect
     (true, r"a+b", "", &["aab", "xaabx", "b", "ab"], &["B"]),
     (true, r"\d{2,3}", "", &["12", "1234", "1", "a12b345"], &["N"]),
